@@ -31,6 +31,29 @@ pub fn digest(run: u32, banks: &[BankB]) -> (String, String, usize) {
     (verdict, fnv(&canon), n)
 }
 
+/// In one multi-chunk (board, chip) group: ids 0..j-1, j-1, j, .., n-2 (CRCs refreshed).
+pub fn shift_chunk_ids(banks: &mut [BankB], rng: &mut impl Rng) {
+    use std::collections::BTreeMap;
+    let mut groups: BTreeMap<(Vec<u8>, u8), Vec<usize>> = BTreeMap::new();
+    for (k, b) in banks.iter().enumerate() {
+        if b.name.starts_with(b"PC") && b.data.len() >= 28 {
+            groups.entry((b.name.clone(), b.data[10])).or_default().push(k);
+        }
+    }
+    let multi: Vec<&Vec<usize>> = groups.values().filter(|v| v.len() >= 2).collect();
+    if let Some(g) = multi.choose(rng) {
+        let n = g.len();
+        let j = rng.gen_range(1..n) as u16;
+        for &k in g.iter() {
+            let id = u16::from_le_bytes([banks[k].data[12], banks[k].data[13]]);
+            if id >= j {
+                banks[k].data[12..14].copy_from_slice(&(id - 1).to_le_bytes());
+                crate::pack::refresh_chunk_crcs(&mut banks[k].data);
+            }
+        }
+    }
+}
+
 fn permute(banks: &[BankB], perm: &[usize]) -> Vec<BankB> {
     perm.iter().map(|&k| banks[k].clone()).collect()
 }
@@ -194,13 +217,46 @@ pub fn run(runner: &mut Runner, data_dir: &str, behaviours: Option<&str>, seed: 
             bag_case(runner, &mut rng, "pad-identity-clash", format!("c{ci}"), SIM, banks, 8, nrand);
         }
     }
-    // (3) simulated multi-track events with noise, plus malformed variants
     let ctx = sim::SimCtx::new(data_dir);
+    // (2c) a simulated event in which a second PWB message (chunk headers of another chip) claims the pads of
+    //      an existing one with different, non-empty waveforms: whatever the verdict, it must be the same every time
+    for ci in 0..(if thorough { 20 } else { 3 }) {
+        let ev = sim::random_event(&ctx, &mut rng, 1 + (ci as usize % 2));
+        let mut banks = sim::to_banks(&ctx, &ev, 7000 + ci as u32, 1.0, 0.0, &mut rng);
+        // pick the first pad group and clone its banks with halved samples and another chip id in the chunk headers
+        let first_pc: Vec<usize> = (0..banks.len()).filter(|&k| banks[k].name.starts_with(b"PC")).collect();
+        if let Some(&k0) = first_pc.first() {
+            let name = banks[k0].name.clone();
+            let chip = banks[k0].data[10];
+            let group: Vec<BankB> = banks.iter().filter(|b| b.name == name && b.data[10] == chip).cloned().collect();
+            // decode the message, halve the samples, re-chunk under a different chip id in the headers
+            let mut chunks: Vec<alpha_g_detector::padwing::Chunk> = group.iter().map(|b| alpha_g_detector::padwing::Chunk::try_from(&b.data[..]).unwrap()).collect();
+            chunks.sort_by_key(|c| c.chunk_id());
+            let mut msg: Vec<u8> = chunks.iter().flat_map(|c| c.payload().to_vec()).collect();
+            let req = u16::from_le_bytes([msg[22], msg[23]]) as usize;
+            let bpc = if req % 2 == 0 { 4 + 2 * req } else { 6 + 2 * req };
+            let nch = (msg.len() - 56) / bpc;
+            for c in 0..nch {
+                for i in 0..req {
+                    let o = 52 + c * bpc + 4 + 2 * i;
+                    let v = i16::from_le_bytes([msg[o], msg[o + 1]]);
+                    let half = 1725 + (v - 1725) / 2;
+                    msg[o..o + 2].copy_from_slice(&half.to_le_bytes());
+                }
+            }
+            let dev = u32::from_le_bytes([group[0].data[0], group[0].data[1], group[0].data[2], group[0].data[3]]);
+            for ch in crate::pack::split_chunks(dev, (chip + 1) % 4, &msg, 1400) {
+                banks.push(BankB { name: name.clone(), data: ch.pack() });
+            }
+        }
+        bag_case(runner, &mut rng, "pad-claimed-twice", format!("d{ci}"), SIM, banks, 6, nrand);
+    }
+    // (3) simulated multi-track events with noise, plus malformed variants
     for ci in 0..nsim {
         let ev = sim::random_event(&ctx, &mut rng, 1 + (ci as usize % 4));
         let noise = *[0.0, 0.5, 3.0, 10.0].choose(&mut rng).unwrap();
         let mut banks = sim::to_banks(&ctx, &ev, 5000 + ci as u32, 1.0, noise, &mut rng);
-        let variant = ci % 4;
+        let variant = ci % 6;
         let kind = match variant {
             1 => {
                 let k = rng.gen_range(0..banks.len());
@@ -218,6 +274,11 @@ pub fn run(runner: &mut Runner, data_dir: &str, behaviours: Option<&str>, seed: 
                 let k = rng.gen_range(0..banks.len());
                 banks.remove(k);
                 "sim-drop"
+            }
+            4 | 5 => {
+                // ids of one multi-chunk PWB message shifted down: two different chunks share an id, none is skipped
+                shift_chunk_ids(&mut banks, &mut rng);
+                "sim-shiftids"
             }
             _ => "sim",
         };
